@@ -189,6 +189,53 @@ theorem cache_len_le (sumOf : Nat → Nat) (size : Int) (ops : List Op) :
     · exact Nat.le_max_right _ _
   exact Nat.le_trans this h2
 
+/-! ## the bound across flushes: the map that carries the capacity is the one made in `New` -/
+
+/-- what `Flush` does to the map object, as read from the source: it empties the one map made in `New` from the
+normalised size (`none`); when the source is not recognised as doing that, the model takes the worst a replacement can
+do, `NewMapCache(0)` (a size that was never filled in) -/
+def flushRebuild : Option Int :=
+  if Gen.Facts.c11MapCreatedOnceFlushOnlyEmpties == some true then none else some 0
+
+theorem stepIn_none (sumOf : Nat → Nat) (c : Cache) (op : Op) : c.stepIn none sumOf op = c.step sumOf op := by
+  cases op <;> rfl
+
+theorem runIn_none (sumOf : Nat → Nat) (ops : List Op) : ∀ (c : Cache), Cache.runIn none sumOf c ops = c.run sumOf ops := by
+  induction ops with
+  | nil => intro c; rfl
+  | cons op ops ih =>
+    intro c
+    simp only [Cache.runIn, Cache.run, stepIn_none, ih]
+
+/-- a `Flush` that does replace the map is harmless exactly when the replacement gets the same per-shard maximum, e.g.
+`NewMapCache` of the normalised size again -/
+theorem flushIn_same_size (c : Cache) (size : Int) (h : size.toNat / shardCount = c.perShard) :
+    (c.flushIn (some size)).perShard = (c.flushIn none).perShard ∧
+    ∀ i, (c.flushIn (some size)).shards i = (c.flushIn none).shards i := by
+  simp [Cache.flushIn, h]
+
+/-- **The capacity holds after any number of flushes, however many distinct keys are stored afterwards**, for the
+`Flush` read from the source (one map, created in `New` from the normalised size, emptied in place): `by decide` fails
+if the map is created anywhere else, the field holding it is assigned again, or a shard's maximum is written after its
+creation. -/
+theorem cache_len_le_across_flushes (sumOf : Nat → Nat) (size : Int) (ops : List Op) :
+    ((Cache.new (Gen.Facts.c11MinSize.getD 0) size).runIn flushRebuild sumOf ops).1.len ≤ Nat.max 1024 size.toNat := by
+  have h : flushRebuild = none := by decide
+  rw [h, runIn_none]
+  exact cache_len_le sumOf size ops
+
+/-- the stores `key i := i` for `i < n`, all live (expiry 100 at time 10), no victims named -/
+def distinctStores (n : Nat) : List Op := (List.range n).map (fun k => Op.store k k 100 10 [])
+
+/-- a `Flush` that replaces the map by one made from a size that was never filled in is refuted: with a minimum (and so
+a capacity) of 64 and 65 distinct keys stored, the cache holds 64 entries before the first flush (both variants: the
+first map is still the one made in `New`), and after a flush 65 with the replacing `Flush`, 64 with the emptying one -/
+theorem flush_rebuilding_from_an_unfilled_size_is_refuted :
+    ((Cache.new 64 0).runIn (some 0) id (distinctStores 65 ++ [.len])).2.getLast? = some (.len 64) ∧
+    ((Cache.new 64 0).runIn (some 0) id (distinctStores 65 ++ [.flush, .len] ++ distinctStores 65 ++ [.len])).2.getLast? = some (.len 65) ∧
+    ((Cache.new 64 0).runIn none id (distinctStores 65 ++ [.flush, .len] ++ distinctStores 65 ++ [.len])).2.getLast? = some (.len 64) ∧
+    ((Cache.new 64 0).flushIn (some 0)).perShard = 0 := by decide
+
 /-! ## exactness: what a lookup returns was stored under that key, latest, not flushed, not expired -/
 
 def Exact (sumOf : Nat → Nat) (c : Cache) (spec : Nat → Option Entry) : Prop :=
@@ -784,7 +831,8 @@ theorem facts_guard :
     Gen.Facts.c11ElemsWrittenOnlyAtCreation = some true ∧
     Gen.Facts.c11OneCriticalSectionPerMethod = some true ∧ Gen.Facts.c11RangeDoAppliesInPlace = some true ∧
     Gen.Facts.c11LruUpdateStoresFirst = some true ∧ Gen.Facts.c11LruAddShape = some true ∧ Gen.Facts.c11LruGetShape = some true ∧
-    Gen.Facts.c11ConcurrentLruLocked = some true ∧ Gen.Facts.c11ShardedLruShardByHashMod = some true := by decide
+    Gen.Facts.c11ConcurrentLruLocked = some true ∧ Gen.Facts.c11ShardedLruShardByHashMod = some true ∧
+    Gen.Facts.c11MapCreatedOnceFlushOnlyEmpties = some true := by decide
 
 /-! ## non-vacuity -/
 
